@@ -136,6 +136,8 @@ func transition(ev *PEvent, st *PState, stats *core.Stats) {
 		if ev.Err != nil && out != "nil" {
 			out = "error"
 		}
+	case "other":
+		op, out = "other instance used", "ok"
 	case "probe":
 		op = []string{"ReadAt", "ByteAt", "PeekAt"}[ev.Op.C&3%3]
 		out = errName(ev.Err)
